@@ -1,2 +1,81 @@
-/-! Line-protocol driver stub (to be filled in): reads stdin, echoes nothing. -/
-def main : IO Unit := pure ()
+import SMV.Model.Validate
+/-!
+# Line-protocol driver for the class-definition validation model (C09)
+
+```
+scn validate <name>
+strict <0|1>
+state <initial 0|1> <final 0|1>          one line per declared state, in order
+event <spec>,<spec>,…  |  event -        one line per event attribute (`-` = empty TransitionList)
+loose <spec>,<spec>,…                    transitions created but not bound to an event
+end
+```
+`<spec>` = `e:<src>:<tgt>:<internal>` or `a:<tgt>:<internal>:<upto>`.
+
+Answer: `scn <name>` / `verdict invalid <reason> <ids>` or `verdict ok abstract=<0|1>` followed by
+one `warn <ids>` line per warning / `end`. `<ids>` = comma-separated state indices, `-` if none.
+-/
+open SMV.Validate
+
+namespace DrvV
+
+def natOf (s : String) : Nat := s.toNat?.getD 0
+def boolOf (s : String) : Bool := s == "1"
+
+def specOf (s : String) : Option TSpec :=
+  match s.splitOn ":" with
+  | ["e", a, b, i] => some (.edge (natOf a) (natOf b) (boolOf i))
+  | ["a", t, i, u] => some (.any (natOf t) (boolOf i) (natOf u))
+  | _ => none
+
+def specsOf (s : String) : List TSpec :=
+  if s == "-" || s == "" then [] else (s.splitOn ",").filterMap specOf
+
+def ids (l : List Nat) : String :=
+  if l.isEmpty then "-" else ",".intercalate (l.map toString)
+
+def reasonName : Reason → String
+  | .internalNotSelf => "internalNotSelf"
+  | .noStates => "noStates"
+  | .noEvents => "noEvents"
+  | .initialCount => "initialCount"
+  | .finalWithTransitions => "finalWithTransitions"
+  | .unreachable => "unreachable"
+  | .trap => "trap"
+  | .noPathToFinal => "noPathToFinal"
+
+structure Acc where
+  name : String
+  d : ClassDef := { states := [], events := [] }
+
+def addLine (a : Acc) (toks : List String) : Acc :=
+  match toks with
+  | ["strict", b] => { a with d := { a.d with strict := boolOf b } }
+  | ["state", i, f] => { a with d := { a.d with states := a.d.states ++ [⟨boolOf i, boolOf f⟩] } }
+  | ["event", s] => { a with d := { a.d with events := a.d.events ++ [specsOf s] } }
+  | ["loose", s] => { a with d := { a.d with loose := a.d.loose ++ specsOf s } }
+  | _ => a
+
+def emit (a : Acc) : IO Unit := do
+  IO.println s!"scn {a.name}"
+  match check a.d with
+  | .invalid r l => IO.println s!"verdict invalid {reasonName r} {ids l}"
+  | .ok abs ws =>
+    IO.println s!"verdict ok abstract={if abs then 1 else 0}"
+    for w in ws do IO.println s!"warn {ids w}"
+  IO.println "end"
+
+partial def loop (h : IO.FS.Stream) (cur : Option Acc) : IO Unit := do
+  let line ← h.getLine
+  if line.isEmpty then return
+  let toks := (line.trimAscii.toString.splitOn " ").filter (· ≠ "")
+  match toks, cur with
+  | "scn" :: _ :: name :: _, _ => loop h (some { name })
+  | ["end"], some a => emit a; loop h none
+  | t, some a => loop h (some (addLine a t))
+  | _, none => loop h none
+
+end DrvV
+
+def main : IO Unit := do
+  DrvV.loop (← IO.getStdin) none
